@@ -76,7 +76,17 @@ type sutA struct {
 // consume reads a buffer to the end the way a client would: in one piece, chunk
 // by chunk (the ByteStream server), or through an io.Reader whose Close reports
 // the final status.
-func consume(b buffer.Buffer, how string) ([]byte, error) {
+//
+// fromClose reports that the error was returned by Close of the io.Reader: that
+// is where a reader-backed buffer reports the error of its background task (a
+// failed repair write), and such an error does not pass through the error
+// handlers attached to the buffer, so the composite cannot prefix it.
+func consume(b buffer.Buffer, how string) (data []byte, err error, fromClose bool) {
+	data, err, fromClose = consume1(b, how)
+	return
+}
+
+func consume1(b buffer.Buffer, how string) ([]byte, error, bool) {
 	switch how {
 	case "chunks":
 		r := b.ToChunkReader(0, 7)
@@ -85,25 +95,27 @@ func consume(b buffer.Buffer, how string) ([]byte, error) {
 		for {
 			chunk, err := r.Read()
 			if err == io.EOF {
-				return data, nil
+				return data, nil, false
 			}
 			if err != nil {
-				return nil, err
+				return nil, err, false
 			}
 			data = append(data, chunk...)
 		}
 	case "reader":
 		r := b.ToReader()
 		data, err := io.ReadAll(r)
-		if cerr := r.Close(); err == nil {
-			err = cerr
-		}
+		cerr := r.Close()
 		if err != nil {
-			return nil, err
+			return nil, err, false
 		}
-		return data, nil
+		if cerr != nil {
+			return nil, cerr, true
+		}
+		return data, nil, false
 	}
-	return b.ToByteSlice(1 << 20)
+	data, err := b.ToByteSlice(1 << 20)
+	return data, err, false
 }
 
 // modeA are the harness-only settings of a mode (a) case.
@@ -167,15 +179,16 @@ func (s *sutA) state(counters bool) string {
 
 // opResult is what one operation of the composite did, as seen from outside.
 type opResult struct {
-	reply    string // canonical reply
-	isErr    bool
-	err      canonErr
-	val      []byte
-	missing  []int
-	calls    []call
-	beforeA  map[int][]byte
-	beforeB  map[int][]byte
-	panicked string
+	reply     string // canonical reply
+	isErr     bool
+	err       canonErr
+	val       []byte
+	missing   []int
+	calls     []call
+	beforeA   map[int][]byte
+	beforeB   map[int][]byte
+	panicked  string
+	fromClose bool // the error came out of io.ReadCloser.Close (background task error, not prefixable)
 }
 
 func atoi(s string) int { v, _ := strconv.Atoi(s); return v }
@@ -202,13 +215,19 @@ func (s *sutA) run(w []string) (res opResult) {
 		var data []byte
 		var err error
 		if w[0] == "get" {
-			data, err = consume(s.ba11.Get(ctx, s.u.digests[k]), s.consume)
+			data, err, res.fromClose = consume(s.ba11.Get(ctx, s.u.digests[k]), s.consume)
 		} else {
-			data, err = consume(s.ba11.GetFromComposite(ctx, s.u.digests[k], s.u.digests[(k+1)%maxKeys], childSlicer{}), s.consume)
+			data, err, res.fromClose = consume(s.ba11.GetFromComposite(ctx, s.u.digests[k], s.u.digests[(k+2)%maxKeys], childSlicer{s.u}), s.consume)
 		}
 		if err != nil {
 			fail(err)
 		} else {
+			if w[0] == "getc" {
+				if child := s.u.content[(k+2)%maxKeys]; string(data) == string(child) && string(child) != string(s.u.content[k]) {
+					// the genuine child: stands for "genuine parent, sliced"
+					data = append(append([]byte{}, s.u.content[k]...), "/c"...)
+				}
+			}
 			res.val = data
 			res.reply = "val " + bytesVal(data)
 			if w[0] == "getc" && !strings.HasSuffix(string(data), "/c") {
